@@ -153,3 +153,9 @@ m("C14", ["R35"], EX, "let (a, b) = ((n / 32) as usize, (n % 32) as usize);", "l
 m("C10", ["R16", "R16x"], NI, "        FloatCore::is_infinite(self)", "        !FloatCore::is_finite(self)", "Float::is_infinite forwarded to the wrong namesake expression (true for NaN)", on="F2-6")
 m("C20", ["RD"], FM, "debug_assert!(abs_lo.is_sign_positive());", "debug_assert!(lo.is_sign_positive());", "hardening assertion on the wrong variable (fails for every negative low word)", on="F2-1")
 m("C11", ["R25"], B, "                    n_pos >>= 1;", "                    n_pos >>= if cfg!(feature = \"std\") { 1 } else { 2 };", "powi loop body depends on the configuration (bodies with loops are compared with the loops havoc'd)")
+m("C09", ["R23"], NI, "            if libm::fabs(f) < INT_THRESHOLD {", "            if libm::fabs(f) <= INT_THRESHOLD {", "fix D9 reverted: NumCast::from(2^53+1) returns 2^53")
+m("C11", ["R25"], FR, "        x.round()\n", "        x.round_ties_even()\n", "the std branch of a configuration-split helper rounds ties to even (libm::round, the no_std branch, rounds them away from zero)", on="G0-2")
+m("C13", ["R31"], PW, "        self * self\n", "        self * self.hi\n", "the new public helper that hypot now goes through drops the low word of one factor", on="H1-2")
+m("C18", ["R49"], HY, "        if self < 1.0 {\n            return Self::NAN;\n        }\n        (self + (self * self - 1.0).sqrt()).ln()", "        (self + (self * self - 1.0).sqrt()).ln()", "fix D10 reverted: acosh without its domain test (large negative arguments with a low word return finite values)")
+m("C15", ["R39"], EX, "        } else if self.hi < -0.5 {", "        } else if self.hi < -2.0 {", "fix D11 disabled: ln_1p next to -1 starts from log1p(hi) again")
+m("C15", ["R39"], EX, "            (1.0 + self).ln()", "            Self::from(1.0 + self.hi).ln()", "ln_1p next to -1 drops the low word when forming 1 + x")
